@@ -376,10 +376,11 @@ func checkC14(c *Ctx) string {
 			fmt.Sprintf("LenStr of the empty string is %d, PutStr writes a %d-byte count: space computed for a record would be wrong", got, w))
 	}
 	checkZigZagVarint(c, "C14.3 K14 the zig-zag varint of the client-server protocol round-trips")
+	checkRecordHeaderClasses(c, "C14.4 K14 record header size classes: length formula, class and reader widths agree")
 	return "One clause of C14: the fixed-width integer codecs of db19/stor (Writer.Put1..Put5 with Reader.Get1..Get5, Write/AppendSmallOffset with ReadSmallOffset) are extracted by shape and evaluated width-exactly " +
 		"on a value with pairwise different bytes and on the boundaries of the width: what is written reads back unchanged, the reader advances by exactly the bytes it decodes, the writer's guard refuses exactly the values that do not fit, " +
 		"PutStr/GetStr and PutStrs/GetStrs use paired count codecs and LenStr agrees with the prefix width. Because every byte position carries one shift, the distinct-byte vector determines the byte mapping completely. " +
-		"Also: the zig-zag varint of dbms/mux (PutInt64/GetInt64): loop constants agree and decode(encode(v)) == v is folded on the boundary values of int64. NOT decided: record headers and truncation (core/record.go), util/varint, size-prefixed strings of dbms/mux (their token sequences are under C40)."
+		"Also: the zig-zag varint of dbms/mux (PutInt64/GetInt64): loop constants agree and decode(encode(v)) == v is folded on the boundary values of int64. Record headers (core/record.go): for lengths around both class boundaries the offset width assumed by tblength equals the width buildOffsets writes for mode(length) and the length fits it; Len, RecLen and GetRaw decode, per class, adjacent big-endian offsets of that width at that stride (cases evaluated with the bytes numbered). NOT decided: record truncation, util/varint, size-prefixed strings of dbms/mux (their token sequences are under C40)."
 }
 
 // tiny helpers over go/constant
